@@ -416,7 +416,19 @@ ExpCirc(scene, ch, edges) == SumSeq([i \in DOMAIN scene |-> CurrentOf(scene[i]) 
 (* source is separated from the cell / loop by more than 10 times its own largest extent.                                   *)
 BodyMaxExt(s) == LET b == LocalBox(s) IN Max2(1, SetMax({b.hi[k] - b.lo[k] : k \in 1..3}))
 SrcFar(s, box) == LET sb == SrcBox(s) d == 10 * BodyMaxExt(s) IN \E k \in 1..3 : box.lo[k] - sb.hi[k] > d \/ sb.lo[k] - box.hi[k] > d
-AllFar(scene, ch, pts) == \A i \in DOMAIN scene : SrcFar(scene[i], RegionBox(ch, pts))
+\* a loop / cell surface that SURROUNDS the body at a large distance: in the curvilinear charts every point of an edge or face has
+\* r >= the smallest r among its corners, so r_min - d > (largest distance of a corner of the body's box from the axis / centre) suffices
+SrcFarRound(s, ch, pts) ==
+  LET d == 10 * BodyMaxExt(s)
+      rmin == SetMin({u[1] : u \in pts})
+      b == FrameBox(ch, SrcBox(s))
+      rad2 == IF ch.type = "cyl" THEN SetMax({c[1] * c[1] + c[2] * c[2] : c \in BoxCorners(b)}) ELSE SetMax({Norm2(c) : c \in BoxCorners(b)})
+  IN ch.type \in {"cyl", "sph"} /\ rmin > d /\ rmin - d <= 40000 /\ (rmin - d) * (rmin - d) > rad2
+\* cart cell enclosing the body with all faces farther than d
+SrcFarInside(s, ch, lo, hi) == ch.type = "cart" /\ LET b == FrameBox(ch, SrcBox(s)) d == 10 * BodyMaxExt(s) IN \A k \in 1..3 : b.lo[k] - lo[k] > d /\ hi[k] - b.hi[k] > d
+AllFar(scene, ch, pts) == \A i \in DOMAIN scene : SrcFar(scene[i], RegionBox(ch, pts)) \/ SrcFarRound(scene[i], ch, pts)
+AllFarCell(scene, ch, lo, hi) == \A i \in DOMAIN scene : SrcFar(scene[i], RegionBox(ch, CellCorners(lo, hi))) \/ SrcFarRound(scene[i], ch, CellCorners(lo, hi))
+                                                         \/ SrcFarInside(scene[i], ch, lo, hi)
 
 (* joint rigid lattice motion g = (Q, t) of the whole instance: x -> Q x + t                      *)
 MoveSrc(Q, t, s) == [s EXCEPT !.R = MulMM(Q, s.R), !.p = Add3(MulMV(Q, s.p), t)]
